@@ -267,8 +267,10 @@ where
             * (self.font.character_size.width + self.font.character_spacing))
             .saturating_sub(self.font.character_spacing);
 
+        // The underline can be drawn below the glyphs, but never reduces the height.
         let bb_height = if self.underline_color != DecorationColor::None {
-            self.font.underline.height + self.font.underline.offset
+            (self.font.underline.height + self.font.underline.offset)
+                .max(self.font.character_size.height)
         } else {
             self.font.character_size.height
         };
